@@ -406,6 +406,14 @@ where
             .into()),
         }
     }
+
+    // speedy only bounds the `Vec::with_capacity(len)` of a `Vec<SyncNeedV1>` (in `SyncRequestV1`)
+    // by `len * minimum_bytes_needed()`; the default of 0 lets the wire length alone drive it
+    #[inline]
+    fn minimum_bytes_needed() -> usize {
+        // variant tag + the smallest payload (`Empty { ts: None }`)
+        2
+    }
 }
 
 impl<C> Writable<C> for SyncNeedV1
